@@ -374,3 +374,15 @@ pub struct UploadSummary {
     pub record_count: usize,
     pub tokens_spent: Amount,
 }
+
+#[cfg(feature = "verif-hooks")]
+impl Client {
+    /// Verification hook: a client over a harness-owned `Network` handle (no swarm is started).
+    pub fn verif_new(network: Network, evm_network: EvmNetwork) -> Self {
+        Self {
+            network,
+            client_event_sender: Arc::new(None),
+            evm_network,
+        }
+    }
+}
